@@ -406,6 +406,24 @@ def check_cov_names(pm, names, default_names, step, world):
     world.probe('covariate_entry_names_verified')
 
 
+def wrap_errors(errs, spec):
+    """
+    The user may hand over a ReducedErrorModel with one of its two
+    parameters fixed (he keeps the object and goes on using it).
+    """
+    import chi
+    if not spec.get('err_wrap'):
+        return errs, None
+    out, mine = [], None
+    for e_, rec in zip(errs, spec['errors']):
+        if mine is None and rec['cls'] == 'CM':
+            e_ = chi.ReducedErrorModel(e_)
+            e_.fix_parameters({e_.get_parameter_names()[0]: 0.3})
+            mine = e_
+        out.append(e_)
+    return out, mine
+
+
 def same_instance(errs, spec):
     """One error model OBJECT for every output (when they are of one class)."""
     if spec.get('same_error_instance') and len(errs) > 1 and len(set(
@@ -686,6 +704,42 @@ def run(scenario, world):
             n_mech = max(1, pm.n_dim() - n_err(llspec))
             ll, mech, errs = bl(llspec, n_mech)
             check_ll(ll, vals, step, world, mech, errs)
+            if llspec.get('err_wrap') and not llspec.get(
+                    'same_error_instance'):
+                # a user-owned reduced error model: composites made from it
+                # keep their own configuration when the user fixes its other
+                # parameter afterwards
+                errs_w, mine = wrap_errors(
+                    [zoo.build_error(e) for e in llspec['errors']], llspec)
+                if mine is not None:
+                    times_ = [list(t) for t in llspec['times']]
+                    obs_ = [list(o_) for o_ in llspec['obs']]
+                    llw = chi.LogLikelihood(mech.copy() if hasattr(
+                        mech, 'copy') else mech, errs_w, obs_, times_)
+                    predw = chi.PredictiveModel(mech.copy() if hasattr(
+                        mech, 'copy') else mech, errs_w)
+                    before = (llw.n_parameters(),
+                              list(llw.get_parameter_names()))
+                    r = call(mine.fix_parameters,
+                             {mine.get_parameter_names()[0]: 0.2})
+                    if not is_exc(r):
+                        n_ = check_ll(llw, vals, step, world)
+                        if (n_, list(llw.get_parameter_names())) != before:
+                            fail('loglik.count_names',
+                                 'follows_user_error_model',
+                                 'before %s, after the user fixed another '
+                                 'parameter of his reduced error model %s'
+                                 % (before, (n_, llw.get_parameter_names())),
+                                 step)
+                        n_, _ = check_named(predw, step, 'pred')
+                        s_ = call(predw.sample, _in_support(vals, n_),
+                                  [1.0, 2.0], 2, 1)
+                        if is_exc(s_) and not ok_exc(s_):
+                            fail('pred.accepts_vector', 'raises',
+                                 'after the user fixed another parameter of '
+                                 'his reduced error model: %r\n%s' % (
+                                     s_, s_.tb), step)
+                        world.probe('user_error_model_fixed_after_hand_over')
             if llspec.get('mech_wrap') == 'fixed':
                 # composites made before the user changes his own model ...
                 before = (ll.n_parameters(), ll.get_parameter_names())
@@ -1169,6 +1223,8 @@ def _generate(rng, index, tier):
                                           'fixed'])
     if n_out > 1 and rng.random() < 0.3:
         llspec['same_error_instance'] = True
+    if any(e['cls'] == 'CM' for e in errors) and rng.random() < 0.5:
+        llspec['err_wrap'] = True
     llspec['times'] = [sorted(rng.sample(grid, rng.randint(1, 4)))
                        for _ in range(n_out)]
     if n_out > 1 and rng.random() < 0.15:
